@@ -1898,7 +1898,7 @@ sc_io_read_at_all (sc_MPI_File mpifile, sc_MPI_Offset offset, void *ptr,
         /* open the file */
         errno = 0;
         mpifile->file = fopen (mpifile->filename, "rb");
-        errval = errno;
+        errval = (mpifile->file == NULL) ? errno : 0;
         if (errval != 0) {
           /* an error occurred */
           SC_ASSERT (mpifile->file == NULL);
@@ -1984,7 +1984,7 @@ sc_io_read_at_all (sc_MPI_File mpifile, sc_MPI_Offset offset, void *ptr,
       /* open the file on rank 0 to be ready for the next file_read call */
       errno = 0;
       mpifile->file = fopen (mpifile->filename, "rb");
-      if (errno != 0) {
+      if (mpifile->file == NULL) {
         /* it occurred an error */
         SC_ASSERT (errno > 0);
         SC_ABORT ("sc_io_read_at_all: rank 0 open failed");
@@ -2193,7 +2193,7 @@ sc_io_write_at_all (sc_MPI_File mpifile, sc_MPI_Offset offset,
         /* open the file */
         errno = 0;
         mpifile->file = fopen (mpifile->filename, "ab");
-        errval = errno;
+        errval = (mpifile->file == NULL) ? errno : 0;
         if (errval != 0) {
           /* it occurred an error */
           SC_ASSERT (errval > 0);
@@ -2276,7 +2276,7 @@ sc_io_write_at_all (sc_MPI_File mpifile, sc_MPI_Offset offset,
       /* open the file on rank 0 to be ready for the next file_write call */
       errno = 0;
       mpifile->file = fopen (mpifile->filename, "ab");
-      if (errno != 0) {
+      if (mpifile->file == NULL) {
         /* it occurred an error */
         SC_ASSERT (errno > 0);
         SC_ABORT ("sc_mpi_write_at_all: rank 0 open failed");
